@@ -30,6 +30,7 @@
 #include <util/check.h>
 
 #include <algorithm>
+#include <dirent.h>
 #include <limits>
 #include <map>
 #include <optional>
@@ -45,7 +46,7 @@ constexpr uint64_t MiB = 1024 * 1024;
 
 struct PruneNode : public ChainTestingSetup {
     PruneNode(uint64_t prune_target)
-        : ChainTestingSetup{ChainType::REGTEST, TestOpts{.extra_args = {"-debug=0", "-fastprune"}, .setup_net = false}}
+        : ChainTestingSetup{ChainType::REGTEST, TestOpts{.extra_args = {"-debug=0", "-checkmempool=0", "-fastprune"}, .setup_net = false}}
     {
         m_node.chainman.reset();
         m_make_chainman = [this, prune_target] {
@@ -93,8 +94,8 @@ struct FileInfoCopy {
 };
 struct Snap {
     std::set<int> blk_on_disk, rev_on_disk;
-    std::map<int, std::vector<BlkRef>> by_file;
-    std::map<int, FileInfoCopy> info;
+    std::vector<BlkRef> refs;
+    std::vector<FileInfoCopy> info; // by file number
     int tip{-1};
     uint64_t usage{0};
 };
@@ -102,6 +103,7 @@ struct Snap {
 struct Hist {
     PruneNode& n;
     ChainstateManager& cm;
+    fs::path blocks_dir;
     vh::Rng& rng;
     vh::Rng& mon; // sampling decisions of the monitors (kept apart from the workload generator)
     const Consensus::Params& cp;
@@ -117,39 +119,45 @@ struct Hist {
     Chainstate* snap_cs{nullptr};
     Chainstate* bg_cs{nullptr};
     int base_height{0};
+    int lock_regime{0};
     // stats
     int blocks_mined{0}, reorgs{0}, max_reorg{0};
     std::set<int> protected_files; // files a chainstate is still writing to (never inflated)
 };
 
+// plain readdir: this runs twice per submitted block
 void ListDir(const fs::path& dir, std::set<int>& blk, std::set<int>& rev)
 {
-    for (const auto& e : fs::directory_iterator(dir)) {
-        const std::string name = fs::PathToString(e.path().filename());
-        if (name.size() == 12 && name.substr(8) == ".dat") {
-            const int num = std::atoi(name.substr(3, 5).c_str());
-            if (name.compare(0, 3, "blk") == 0) blk.insert(num);
-            if (name.compare(0, 3, "rev") == 0) rev.insert(num);
+    DIR* d = opendir(fs::PathToString(dir).c_str());
+    if (!d) throw std::runtime_error("cannot list the blocks directory");
+    while (struct dirent* e = readdir(d)) {
+        const char* nm = e->d_name;
+        if (std::strlen(nm) == 12 && std::strcmp(nm + 8, ".dat") == 0) {
+            const int num = std::atoi(std::string(nm + 3, 5).c_str());
+            if (std::strncmp(nm, "blk", 3) == 0) blk.insert(num);
+            if (std::strncmp(nm, "rev", 3) == 0) rev.insert(num);
         }
     }
+    closedir(d);
 }
 
 Snap TakeSnap(Hist& h)
 {
     Snap s;
-    ListDir(h.n.m_args.GetBlocksDirPath(), s.blk_on_disk, s.rev_on_disk);
+    ListDir(h.blocks_dir, s.blk_on_disk, s.rev_on_disk);
     LOCK(::cs_main);
     const CChain& ac = h.cm.ActiveChain();
     s.tip = ac.Height();
+    s.refs.reserve(h.cm.m_blockman.m_block_index.size());
     for (const auto& [hash, bi] : h.cm.m_blockman.m_block_index) {
         if (bi.nStatus & BLOCK_HAVE_DATA) {
-            s.by_file[bi.nFile].push_back(BlkRef{&bi, bi.nFile, bi.nHeight, bool(bi.nStatus & BLOCK_HAVE_UNDO), ac.Contains(bi)});
+            s.refs.push_back(BlkRef{&bi, bi.nFile, bi.nHeight, bool(bi.nStatus & BLOCK_HAVE_UNDO), ac.Contains(bi)});
         }
     }
     for (int f = 0;; ++f) {
         try {
             const CBlockFileInfo* fi = h.cm.m_blockman.GetBlockFileInfo(f);
-            s.info[f] = FileInfoCopy{fi->nSize, fi->nUndoSize, fi->nHeightFirst, fi->nHeightLast, fi->nBlocks};
+            s.info.push_back(FileInfoCopy{fi->nSize, fi->nUndoSize, fi->nHeightFirst, fi->nHeightLast, fi->nBlocks});
         } catch (const std::out_of_range&) {
             break;
         }
@@ -241,11 +249,13 @@ void Observed(Hist& h, CallType type, int manual_height, F&& call)
     }
     call();
     std::set<int> blk, rev;
-    ListDir(h.n.m_args.GetBlocksDirPath(), blk, rev);
+    ListDir(h.blocks_dir, blk, rev);
     std::set<int> deleted;
     for (int f : pre.blk_on_disk) if (!blk.count(f)) deleted.insert(f);
     for (int f : pre.rev_on_disk) if (!rev.count(f)) deleted.insert(f);
     if (type == CallType::NATURAL && deleted.empty()) return;
+    std::map<int, std::vector<BlkRef>> by_file;
+    for (const BlkRef& r : pre.refs) by_file[r.file].push_back(r);
 
     int tip_post, bg_tip_post = -1;
     bool validated_post = true;
@@ -264,7 +274,7 @@ void Observed(Hist& h, CallType type, int manual_height, F&& call)
     // which survivors get a read-back
     std::set<int> read_files;
     for (int f : deleted) { read_files.insert(f - 1); read_files.insert(f + 1); }
-    for (const auto& [f, refs] : pre.by_file) {
+    for (const auto& [f, refs] : by_file) {
         const bool gone = deleted.count(f);
         if (gone) {
             if (blk.count(f) || rev.count(f)) {
@@ -284,7 +294,7 @@ void Observed(Hist& h, CallType type, int manual_height, F&& call)
                                             vh::J().i("file", f).i("height", r.height).u("status", r.pi->nStatus));
                 }
             }
-            const FileInfoCopy& fi = pre.info.count(f) ? pre.info.at(f) : FileInfoCopy{};
+            const FileInfoCopy fi = f >= 0 && size_t(f) < pre.info.size() ? pre.info[f] : FileInfoCopy{};
             jdel.push_back(vh::J().i("f", f).i("minh", mn).i("maxh", mx).u("fi_first", fi.first).u("fi_last", fi.last).u("size", fi.size).u("undo", fi.undo)
                                .raw("blocks", vh::JArr(bl)).done());
         } else {
@@ -317,7 +327,7 @@ void Observed(Hist& h, CallType type, int manual_height, F&& call)
                 }
             }
             if (type != CallType::NATURAL) {
-                const FileInfoCopy& fi = pre.info.count(f) ? pre.info.at(f) : FileInfoCopy{};
+                const FileInfoCopy fi = f >= 0 && size_t(f) < pre.info.size() ? pre.info[f] : FileInfoCopy{};
                 jrem.push_back("[" + std::to_string(f) + "," + std::to_string(mn) + "," + std::to_string(mx) + "," + std::to_string(fi.first) + "," + std::to_string(fi.last) + "," +
                                std::to_string(fi.size) + "," + std::to_string(fi.undo) + "]");
             }
@@ -393,7 +403,8 @@ void LockAction(Hist& h)
     const int tip = Tip(h)->nHeight;
     LOCK(::cs_main);
     auto it = h.locks.find(name);
-    const int kind = h.rng.weighted({30, 30, 10, 10, 10, 10});
+    // regime 1: indexes that keep up with the chain; regime 2: anything goes
+    const int kind = h.lock_regime == 1 ? h.rng.weighted({6, 40, 0, 34, 8, 4, 8}) : h.rng.weighted({30, 30, 10, 10, 10, 10, 0});
     if (kind == 4 && it != h.locks.end()) {
         h.cm.m_blockman.DeletePruneLock(name);
         h.locks.erase(it);
@@ -526,8 +537,9 @@ VH_CMD(prune)
         PruneNode n{target};
         ChainstateManager& cm = *n.m_node.chainman;
         vh::Rng mon(args.seed ^ 0x6d6f6e, c);
-        Hist h{.n = n, .cm = cm, .rng = rng, .mon = mon, .cp = cp, .target = target, .automatic = automatic, .c = c};
+        Hist h{.n = n, .cm = cm, .blocks_dir = n.m_args.GetBlocksDirPath(), .rng = rng, .mon = mon, .cp = cp, .target = target, .automatic = automatic, .c = c};
         h.snapshot = snapshot;
+        h.lock_regime = rng.weighted({30, 40, 30});
 
         int bg_next = 0; // next background block to deliver in order
         std::vector<int> bg_pending;
@@ -571,12 +583,13 @@ VH_CMD(prune)
 
         // ---- act ------------------------------------------------------------------------------------------------
         for (int64_t a = 0; a < n_actions; ++a) {
-            switch (rng.weighted({30, 6, 14, automatic ? 12u : 0u, automatic ? 14u : 0u, 18, snapshot ? 8u : 0u})) {
+            switch (rng.weighted({30, 6, h.lock_regime == 0 ? 0u : 12u, automatic ? 12u : 0u, automatic ? 14u : 0u, 18, snapshot ? 8u : 0u, automatic ? 6u : 0u})) {
             case 0: Mine(h, 1 + rng.below(12)); NoteWriteFiles(h); break;
             case 1: Reorg(h); NoteWriteFiles(h); break;
             case 2: LockAction(h); break;
             case 3: Inflate(h); break;
             case 4: AutoPrune(h); break;
+            case 7: Inflate(h); AutoPrune(h); break;
             case 5: ManualPrune(h); break;
             case 6: { // background chainstate progress
                 const Chain& ch = *base;
